@@ -22,7 +22,10 @@ RULE = ("case = (server kind: threaded / thread-pool of 4 / forking; transport: 
         "or partial magic word, a raw request naming an object id harvested from ANOTHER client's connection, hold-open). "
         "oracle: every good client keeps getting its own token, its own state and a working reference; tokens pairwise "
         "distinct; a foreign id is answered with an exception; after EACH hostile client a fresh good client connects and "
-        "completes a call; the server is still accepting at the end. non-trivial = >= 1 hostile client strictly between two "
+        "completes a call; the server is still accepting at the end; in a third of the cases the service's disconnect hook takes "
+        "0.15 s, so that the next client arrives while the previous one is still being cleaned up, in a third the service's "
+        "constructor takes 0.1 s, and two well-behaved clients may arrive at the same time; every well-behaved client's connection "
+        "must carry that client's own endpoints and credentials (TCP). non-trivial = >= 1 hostile client strictly between two "
         "steps of a good client. distinct by scenario hash.")
 ASSUMPTIONS = ["real sockets and OS-scheduled threads: oracles are facts true under every OS schedule; real time is only a generous "
                "liveness bound (10 s) and a miss is re-run once in isolation before it counts",
@@ -83,16 +86,40 @@ HOSTILE = ["random", "frame-then-garbage", "absurd-length", "huge-length", "zero
 def run_scenario(case):
     problems = []
     stats = {"hostile": 0, "between": 0}
-    fx = servers.Fixture(case["server"], case["transport"], case["auth"])
+    fx = servers.Fixture(case["server"], case["transport"], case["auth"], slow_disconnect=case.get("slow_hook", 0.0),
+                         slow_init=case.get("slow_init", 0.0))
     good = {}
     held = []
     tokens = []
     try:
+        def own_config(c, where):
+            """the connection a client is served on carries THIS client's credentials and endpoints, nobody else's"""
+            if case["transport"] != "tcp":
+                return                       # unix-socket clients are anonymous: nothing to tell them apart by
+            me = c._channel.stream.sock.getsockname()
+            creds, endpoints = c.root.config()
+            if endpoints is not None and tuple(endpoints[1])[:2] != tuple(me)[:2]:
+                problems.append(("config-leak", "connection carries another client's endpoints", [repr(endpoints), repr(me), where]))
+            want = ("authenticated:%r" % (me,)) if case["auth"] else None
+            if creds != want:
+                problems.append(("config-leak", "connection carries another client's credentials", [repr(creds), repr(want), where]))
+
+        def gopen2(slot1, slot2):
+            # two well-behaved clients arriving at the same time
+            ths = [threading.Thread(target=gopen, args=(sl,)) for sl in (slot1, slot2) if sl not in good]
+            for t in ths:
+                t.daemon = True
+                t.start()
+            for t in ths:
+                t.join(3 * servers.BOUND)
+            stats["together"] = stats.get("together", 0) + (1 if len(ths) == 2 else 0)
+
         def gopen(slot):
             if slot in good:
                 return
             try:
                 c = fx.connect_good()
+                own_config(c, "first call")
                 tok = c.root.whoami()
                 val = "value-of-%s" % tok
                 c.root.put("k", val)
@@ -114,6 +141,7 @@ def run_scenario(case):
                 v = c.root.get("k")
                 if v != g["val"]:
                     problems.append(("state-leak", "client sees state it did not put", [v, g["val"]]))
+                own_config(c, "later")
                 if list(g["ref"]) != [g["tok"], "mine"]:
                     problems.append(("reference-broken", "reference no longer resolves to its object", None))
                 if g["hostile_since"]:
@@ -191,6 +219,8 @@ def run_scenario(case):
             op = stp[0]
             if op == "gopen":
                 gopen(stp[1] % 3)
+            elif op == "gopen2":
+                gopen2(stp[1] % 3, stp[2] % 3)
             elif op == "gcheck":
                 gcheck(stp[1] % 3)
             elif op == "gclose":
@@ -244,6 +274,12 @@ def check(case, rec):
             problems = again
     classes = ["server:" + case["server"], "transport:" + case["transport"], "auth:%s" % case["auth"]]
     classes += ["hostile:" + s[1] for s in case["steps"] if s[0] == "hostile"][:8]
+    if case.get("slow_hook"):
+        classes.append("slow-disconnect-hook")
+    if case.get("slow_init"):
+        classes.append("slow-service-constructor")
+    if stats.get("together"):
+        classes.append("two-good-clients-arrive-together")
     rec.case(case, stats["between"] > 0, classes)
     return [Failure(cl, key, case, det) for cl, key, det in problems[:3]]
 
@@ -251,18 +287,19 @@ def check(case, rec):
 def cases(kinds):
     hostile = st.tuples(st.just("hostile"), st.sampled_from(HOSTILE + ["wrong-magic", "foreign-id", "foreign-id"]), st.integers(0, 1000),
                         st.sampled_from(["close", "close", "abrupt", "abrupt", "half", "hold"])).map(list)
-    step = st.one_of(st.tuples(st.just("gopen"), st.integers(0, 2)).map(list), st.tuples(st.just("gcheck"), st.integers(0, 2)).map(list),
+    step = st.one_of(st.tuples(st.just("gopen"), st.integers(0, 2)).map(list), st.just(["gopen2", 1, 2]), st.tuples(st.just("gcheck"), st.integers(0, 2)).map(list),
                      st.tuples(st.just("gclose"), st.integers(0, 2), st.booleans()).map(list), hostile, hostile)
     # constructive core: a good client is open while hostile clients come and go, then it is checked
     core = st.tuples(st.lists(hostile, min_size=1, max_size=3), st.lists(step, max_size=5)).map(
-        lambda t: [["gopen", 0], ["gopen", 1]] + t[0] + [["gcheck", 0]] + t[1] + [["gcheck", 1]])
+        lambda t: [["gopen2", 0, 1]] + t[0] + [["gcheck", 0]] + t[1] + [["gcheck", 1]])
     # a barrage: more failing clients than the thread pool has workers, while a good client is connected
     loud = st.tuples(st.just("hostile"), st.sampled_from(["junk-brine", "not-a-triple", "bad-message-kind", "corrupt-zlib", "flag-garbage",
                                                            "length-minus-one", "frame-then-garbage"]), st.integers(0, 1000),
                      st.sampled_from(["close", "abrupt", "half"])).map(list)
     barrage = st.lists(loud, min_size=5, max_size=7).map(lambda hs: [["gopen", 0]] + hs + [["gcheck", 0]])
     return st.fixed_dictionaries({"server": st.sampled_from(kinds), "transport": st.sampled_from(["tcp", "tcp", "unix"]),
-                                  "auth": st.booleans(),
+                                  "auth": st.booleans(), "slow_hook": st.sampled_from([0.0, 0.0, 0.15]),
+                                  "slow_init": st.sampled_from([0.0, 0.0, 0.1]),
                                   "steps": st.one_of(core, core, barrage, st.lists(step, min_size=2, max_size=12))})
 
 
